@@ -36,7 +36,7 @@ def corpus(q, rnd):
     by = collections.defaultdict(list)
     for module, env, cfg in [("MCGenStmt", {"MAXSTMTS": 4, "MAXDEPTH": 4, "EVENTS": 0}, "lang/MCGen.cfg"),
                              ("MCGenFn", {"MAXSTMTS": 4, "MAXDEPTH": 3, "EVENTS": 0}, "lang/MCGen.cfg"),
-                             ("MCGenTrap", {"MAXSTMTS": 3, "MAXDEPTH": 2, "EVENTS": 0}, "lang/MCGen.cfg"),
+                             ("MCGenTrap", {"MAXSTMTS": 3, "MAXDEPTH": 2, "EVENTS": 0, "TRAPVAR": "0"}, "lang/MCGen.cfg"),
                              ("MCGenMemFn", {"MAXSTMTS": 3, "MAXDEPTH": 3, "EVENTS": 0}, "lang/MCGen.cfg"),
                              ("MCGenStatic", {"MAXSTMTS": 3, "MAXDEPTH": 4, "ARITY": "0"}, "lang/MCGenStatic.cfg")]:
         r = le.generate(module, env=env, cfg=cfg, coverage=False, timeout=1800)
